@@ -647,12 +647,14 @@ def search_for_paths(logger: ConsolePrinter, processor: EYAMLProcessor,
                     )
                     yield YAMLPath(tmp_path)
 
-        # Include YAML Merge Keys when include_value_aliases is enabled
-        if include_value_aliases:
+        # Include YAML Merge Keys when include_value_aliases is enabled and
+        # the names of Anchors are being searched (what is matched here is
+        # the name of the merged Anchor, not any key or value)
+        if include_value_aliases and search_anchors:
             refs = data.merge if hasattr(data, "merge") else []
             for (_, ref_node) in refs:
                 for anchor_name, anchor_node in all_anchors.items():
-                    if anchor_node == ref_node:
+                    if anchor_node is ref_node:
                         tmp_path = (build_path + "[&{}]".format(
                             YAMLPath.escape_path_section(
                                 anchor_name, pathsep)))
